@@ -144,11 +144,32 @@ theorem noCh_valueLine (n : Nat) (f : FieldD) (h : SimpleValue f) : NoCh x (valu
 
 end
 
+/-- a line that holds only tokens -/
+def TokLine (s : String) : Prop := ∀ (L : Nat), ∀ r ∈ lexL s.toList L, ∃ t ln, r = Raw.tok t ln
+
+/-- the character does not occur in the line — or it is a slash and the line holds only tokens all the same (a
+slash inside a string literal) -/
+def LineOk (x : Char) (s : String) : Prop := NoCh x s.toList ∨ (x = '/' ∧ TokLine s)
+
+theorem tokLine_ind_of_ok (n : Nat) (l : String) (h : TokOk l) : TokLine (ind n l) := by
+  intro L r hr
+  unfold ind at hr
+  rw [String.toList_append, String.toList_ofList, lexL_spaces] at hr
+  have hs : lexL l.toList L = (lexL l.toList 0).map (Raw.shift L) := by
+    unfold lexL
+    have := lexAux_shift L (l.toList.length + 1) l.toList 0
+    rw [Nat.zero_add] at this
+    exact this
+  rw [hs, List.mem_map] at hr
+  obtain ⟨r0, hr0, rfl⟩ := hr
+  obtain ⟨t, ln, rfl⟩ := h r0 hr0
+  exact ⟨t, ln + L, rfl⟩
+
 /-- the texts a command list can write -/
 def CmdsNoCh (x : Char) (cmds : List Cmd) : Prop :=
   ∀ c ∈ cmds, match c with
-    | .line s => NoCh x s.toList
-    | .endl s => NoCh x s.toList
+    | .line s => LineOk x s
+    | .endl s => LineOk x s
     | .gap => True
 
 theorem CmdsNoCh.append {x : Char} {a b : List Cmd} (ha : CmdsNoCh x a) (hb : CmdsNoCh x b) : CmdsNoCh x (a ++ b) := by
@@ -161,13 +182,13 @@ theorem cmdsNoCh_line (x : Char) (str : String) (h : NoCh x str.toList) : CmdsNo
   intro c hc
   simp only [List.mem_singleton] at hc
   subst hc
-  exact h
+  exact Or.inl h
 
 theorem cmdsNoCh_endl (x : Char) (str : String) (h : NoCh x str.toList) : CmdsNoCh x [Cmd.endl str] := by
   intro c hc
   simp only [List.mem_singleton] at hc
   subst hc
-  exact h
+  exact Or.inl h
 
 theorem cmdsNoCh_gap (x : Char) : CmdsNoCh x [Cmd.gap] := by
   intro c hc
@@ -224,15 +245,16 @@ theorem optCmds_noCh (n : Nat) (os : List SOpt) (ho : BlockOpts os) :
   · simp only [optionCmds, List.mem_map] at h1
     obtain ⟨l, hl, rfl⟩ := h1
     simp only [Cmd.indent]
-    apply noCh_ind hx
-    intro ch hch hcx
     have hl' : l ∈ optLines0 os := by
       simp only [optLines0, List.mem_flatten, List.mem_map]
       exact ⟨_, ⟨o, ho', rfl⟩, hl⟩
-    have := ho.noch l hl' ch hch
+    have := ho.noch l hl'
     rcases hx.only with h2 | h2
-    · exact this.1 (hcx.trans h2)
-    · exact this.2 (hcx.trans h2)
+    · left
+      apply noCh_ind hx
+      intro ch hch hcx
+      exact this.1 ch hch (hcx.trans h2)
+    · exact Or.inr ⟨h2, tokLine_ind_of_ok _ l this.2⟩
   · simp only [List.mem_singleton] at h1
     subst h1
     trivial
@@ -252,12 +274,13 @@ theorem simpleItem_noCh : ∀ (e : Item) (n : Nat), SimpleItem e → CmdsNoCh x 
       simp only [List.map_map, List.mem_map, Function.comp] at hc
       obtain ⟨l, hl, rfl⟩ := hc
       simp only []
-      apply noCh_ind hx
-      intro ch hch hcx
-      have := h.noch l hl ch hch
+      have := h.noch l hl
       rcases hx.only with h1 | h1
-      · exact this.1 (hcx.trans h1)
-      · exact this.2 (hcx.trans h1)
+      · left
+        apply noCh_ind hx
+        intro ch hch hcx
+        exact this.1 ch hch (hcx.trans h1)
+      · exact Or.inr ⟨h1, tokLine_ind_of_ok _ l this.2⟩
   | .rpc _ _ _ _ _ _, _, h => h.elim
   | .block kw t l i name os kids, n, h => by
     simp only [SimpleItem] at h
